@@ -6,8 +6,22 @@ package commonspace
 // ---------------------------------------------------------------------------------------------
 // C11: the response of a peer to SpacePull is attacker-controlled; only the service's own wiring
 // is constrained.
+// C13: the payload stored for a pull names the space that was asked for (a valid payload of another
+// space is not accepted in its place)
+//@ ghost pullStored Bool stable
+//@ ghost pullStoredId Str stable
+//@ func (*github.com/anyproto/any-sync/commonspace/spacesyncproto.RawSpaceHeaderWithId).GetId
+//@   pure
+//@   ensures arg0 != nil ==> result == arg0.Id
+//@   ensures arg0 == nil ==> result == ""
+//@ package github.com/anyproto/any-sync/commonspace
+//@ func (*spaceService).createSpaceStorage
+//@   sets pullStored = true
+//@   sets pullStoredId = old(ite(payload.SpaceHeaderWithId != nil, payload.SpaceHeaderWithId.Id, ""))
 //@ func (*spaceService).spacePullWithPeer
 //@   requires s != nil && p != nil && s.storageProvider != nil && s.configurationService != nil && s.account != nil
+//@   requires !pullStored
+//@   ensures [pulled_space_is_requested_space] pullStored ==> pullStoredId == id
 //@   assumes true
 //@   loop 0:
 //@     invariant res != nil && -1 <= rangeindex && rangeindex < len(res.AclRecords) && rootof(consRecs) > 0 && acl != nil
